@@ -471,7 +471,15 @@ pub fn gen_bad(rng: &mut Rng, cfg: &GenCfg) -> Body {
         8 => format!(",{},{}", g.props_text(), g.desc),
         9 => {
             let junk = ["ghy0141", "U+0041", "0x41", "00G1", "41h", "XYZ", "00 41", "0041;", "#0041", "004l"];
-            format!("{},{},{}", rng.pick(&junk), g.props_text(), g.desc)
+            // or the row's own (valid) numbers with a range separator that is not the registry's '-'
+            let hi = g.hi.unwrap_or(g.lo.saturating_add(1).min(0x10FFFF));
+            let seps = ["..", "...", "\u{2013}", " - ", ":", "/", "_", " ", "to", "--", "+", "~", ".-", "-..", "\u{2010}", "\u{2212}"];
+            let field = if rng.chance(1, 2) {
+                rng.pick(&junk).to_string()
+            } else {
+                format!("{:04X}{}{:04X}", g.lo, rng.pick(&seps), hi)
+            };
+            format!("{},{},{}", field, g.props_text(), g.desc)
         }
         10 => {
             // a value above 10FFFF, spelled out numerically: fixed spellings, a valid code point
